@@ -999,11 +999,13 @@ func isUnknownSpec(a predOutcome) predOutcome {
 
 //@ func (kvBaseObject).OffsetOf
 //@ props C16 C05
+//@ ensures [C16] generated-object-itself: bo.gen != 0 && addrOf(obj) == bo.gen ==> r0 == 0
 //@ requires bo.addr <= 9223372036854775807
 //@ ensures [C16] distance: r0 >= 0
 
 //@ func (*Executor).executeKeyValueMethod
 //@ props C16 C09
+//@ atcall executeNextItem assert [C16 C19 C06 C08] offsets-from-the-source-object: exec.baseObject.addr == addrOf(value) && exec.baseObject.gen == addrOf(arg_value) && exec.baseObject.id == exec.lastGeneratedObjectID && arg_found == found
 //@ requires node != nil
 //@ loop 1 invariant [C20 C05] no-pending: pendingErr() == nil && !pendingFailed()
 //@ loop 1 invariant status: res == statusOK || res == statusNotFound
